@@ -880,6 +880,12 @@ func (t *tokenizer) skipSingleLineComment() error {
 // SkipBlockComment skips over the body of a block comment, terminated
 // by a '*/' sequence.
 func (t *tokenizer) skipBlockComment() error {
+	// The comment's opening '*' has only been peeked at, not read. Consume it,
+	// so it can't double as the '*' of the closing '*/' (as in "/*/").
+	if _, err := t.read(); err != nil {
+		return err
+	}
+
 	star := false
 	for {
 		c, err := t.read()
